@@ -280,6 +280,16 @@ def _is_mutable_value(v):
                                      or dotted(v.func) in ("logging.getLogger", "version")))
 
 
+def _is_constant_table(v):
+    """a non-empty literal display (dict / list / tuple / set of constants, names, attributes): a lookup table, not a cache"""
+    if isinstance(v, ast.Dict):
+        return bool(v.keys) and all(k is not None and isinstance(k, ast.Constant) for k in v.keys) and \
+            all(isinstance(x, (ast.Constant, ast.Name, ast.Attribute, ast.Tuple, ast.List)) for x in v.values)
+    if isinstance(v, (ast.List, ast.Set, ast.Tuple)):
+        return bool(v.elts) and all(isinstance(x, (ast.Constant, ast.Name, ast.Attribute, ast.Tuple)) for x in v.elts)
+    return False
+
+
 def r7_3(prog, rep, pp):
     # module-level bindings
     for m in prog.modules.values():
@@ -288,6 +298,10 @@ def r7_3(prog, rep, pp):
             mutable = any(v is not None and _is_mutable_value(v) for v in vals)
             if not mutable:
                 continue
+            table = all(v is not None and _is_constant_table(v) for v in vals)
+            if q not in KNOWN_GLOBALS and table:
+                rep.info("R7.3", f"{m.relpath}:1", q, f"new module-level constant table `{q}`", "non-empty literal display; any writer would be reported separately")
+                continue
             rep.check(q in KNOWN_GLOBALS, "R7.3", f"{m.relpath}:1", q, f"module-level mutable binding `{q}` is one of the known long-lived objects",
                       KNOWN_GLOBALS.get(q, ""), f"new module-level mutable `{q}`: state that outlives a call and is shared by all designs")
     # class-level mutable attributes
@@ -295,6 +309,9 @@ def r7_3(prog, rep, pp):
         for an, v in sorted(cls.class_attrs.items()):
             if _is_mutable_value(v):
                 q = f"{cls.qual}.{an}"
+                if q not in KNOWN_CLASS_ATTRS and _is_constant_table(v):
+                    rep.info("R7.3", cls.where, q, f"new class-level constant table `{q}`", "non-empty literal display; any writer would be reported separately")
+                    continue
                 rep.check(q in KNOWN_CLASS_ATTRS, "R7.3", cls.where, q, f"class-level mutable attribute `{q}` is a known constant table",
                           KNOWN_CLASS_ATTRS.get(q, ""), f"new class-level mutable `{q}` is shared by all instances (e.g. fitted parameters would leak across designs)")
     # writers of module-level / class-level mutables
@@ -303,6 +320,10 @@ def r7_3(prog, rep, pp):
         for name in m.globals:
             glob_names.setdefault(name, []).append(f"{m.name}.{name}")
     class_tables = {q.rsplit(".", 1)[1]: q for q in KNOWN_CLASS_ATTRS}
+    for cls in prog.classes.values():
+        for an, v in cls.class_attrs.items():
+            if _is_mutable_value(v):
+                class_tables.setdefault(an, f"{cls.qual}.{an}")
     for q, f in sorted(prog.functions.items()):
         locals_ = set(DF._all_params(f)) | {t.id for s in ast.walk(f.node) if isinstance(s, (ast.Assign, ast.For, ast.comprehension))
                                             for t in ast.walk(s.targets[0] if isinstance(s, ast.Assign) else s.target) if isinstance(t, ast.Name)}
